@@ -396,7 +396,7 @@ func (s *svcSpec) real() *model.Service {
 		Hostname:     host.Name(s.hostname),
 		Ports:        ports,
 		CreationTime: epoch.Add(time.Duration(s.ctime) * time.Second),
-		Resolution:   model.Resolution(s.res),
+		Resolution:   resolutionOf(s.res),
 		Attributes: model.ServiceAttributes{
 			Name:            s.name,
 			Namespace:       s.ns,
@@ -593,10 +593,24 @@ func (w *world) build() {
 	go env.VirtualServiceController.Run(w.stop)
 	waitSynced(store.HasSynced)
 	waitSynced(env.VirtualServiceController.HasSynced)
+	env.NetworksWatcher = meshwatcher.NewFixedNetworksWatcher(nil)
 	env.Init()
+	if err := env.InitNetworksManager(model.NewEndpointIndexUpdater(env.EndpointIndex)); err != nil {
+		panic(err)
+	}
 	ps := model.NewPushContext()
 	ps.InitContext(env, nil, nil)
 	w.ps, w.env = ps, env
 }
 
 func hostName(h string) host.Name { return host.Name(h) }
+
+// resolutionOf maps the spec's resolution tag to resolutions whose outbound cluster CDS always
+// builds (a DNS cluster without endpoints is dropped by the cluster builder, which is not the
+// subject here): 0 = ClientSideLB (EDS), anything else = Passthrough (ORIGINAL_DST).
+func resolutionOf(r int) model.Resolution {
+	if r == 0 {
+		return model.ClientSideLB
+	}
+	return model.Passthrough
+}
